@@ -51,6 +51,10 @@ def check_try_send(f, rep):
                     arm = "ready" if c[1] == 0 else "pending"
                 if arm == "ready" and e[0] == "discr" and e[1][0] == "field" and e[1][1][0] == "downcast" and e[1][1][1] == r and c[0] == "eq":
                     arm = "ready_ok" if c[1] == 0 else "ready_err"
+                # the Ready payload decided through `?` (`Poll::Ready(ready) => ready?`): Continue = Ok, Break = Err
+                x_ = pathq.unwrap_try(e[1]) if e[0] == "discr" else None
+                if arm == "ready" and x_ is not None and x_ is not e[1] and x_[0] == "field" and x_[1][0] == "downcast" and x_[1][1] == r and c[0] == "eq":
+                    arm = "ready_ok" if c[1] == 0 else "ready_err"
             if arm is None:
                 # the other spelling: `poll_ready(cx)?` takes the Ready(Err) exit through Try for Poll<Result<..>>, and what is left
                 # is asked `is_pending()` / `is_ready()` (or matched)
